@@ -635,8 +635,8 @@ Qed.
 Lemma wh_reset_same o s rest ti x :
   let d := fst (wh_eff_duration (wh_s s) ti (WReset x)) in
   let th op := {| wh_rpc_of := WRIdle; wh_todo := op :: rest; wh_tint := ti |} in
-  wh_rpc_of (fst (wh_req_step_th o s (th (WReset x)))) = wh_rpc_of (fst (wh_req_step_th o s (th (WNew d)))) /\
-  snd (wh_req_step_th o s (th (WReset x))) = snd (wh_req_step_th o s (th (WNew d))) /\
+  wh_rpc_of (fst (wh_req_step_th o s (th (WReset x)))) = wh_rpc_of (fst (wh_req_step_th o s (th (WhNew d)))) /\
+  snd (wh_req_step_th o s (th (WReset x))) = snd (wh_req_step_th o s (th (WhNew d))) /\
   wh_tint (fst (wh_req_step_th o s (th (WReset x)))) = ti /\
   (d = match x with Some v => if (wh_s s <=? v)%Z then v else ti | None => ti end).
 Proof.
@@ -647,7 +647,7 @@ Qed.
 
 (* the original step order: the request of the D1 replay obtains the fresh channel *)
 Lemma wh_orig_refuted :
-  let s0 := wh_init 3600000000000 4 5 [[WNew 0%Z]] in
+  let s0 := wh_init 3600000000000 4 5 [[WhNew 0%Z]] in
   let sched := [0;0;0;0; 1;1;1; 0;0; 0;0;0;0;0;0; 0;0;0;0;0;0; 0;0;0;0;0;0; 0;0;0;0;0;0] in
   In (1, WERet 0 0 1 4) (wh_trace WOrig s0 sched) /\
   wh_closed_at (wh_final WOrig s0 sched) 4 = Some 5 /\ 5 > 1 + 0 + 1.
